@@ -21,6 +21,8 @@ Bytes are `Nat`s; theorems that need it assume `< 256`.
 -/
 namespace Pxv.ReqData
 
+deriving instance DecidableEq for Except
+
 /-! ## percent-encoding -/
 
 def isHex (b : Nat) : Bool :=
@@ -389,20 +391,24 @@ def pathField (k : List Nat) (t : Ty) (v : List Nat) (owned : Bool) : Except Err
   | .vec _ => .error .unsupported
   | .vecDefault _ => .error .unsupported
 
-/-- The serde-derived `visit_map` loop over `MapDeserializer`: keys in URL order, unknown keys
-    skipped, a repeated known key is an error *before* its value is looked at. -/
-def pathWalk (fields : List Field) :
-    List (List Nat × List Nat × Bool) → List (List Nat × Val) → Except Err (List (List Nat × Val))
+/-- `ValueDeserializer` on one map entry `(decoded value, owned)`. -/
+def pathDe (k : List Nat) (t : Ty) (e : List Nat × Bool) : Except Err Val := pathField k t e.1 e.2
+
+/-- The serde-derived `visit_map` loop of a struct, generic in what a map entry carries (`β`) and in
+    the deserializer `de` applied to the entry of a known field: keys in input order, unknown keys
+    skipped (`IgnoredAny`), a repeated known key is an error *before* its value is looked at. -/
+def visitMap {β : Type} (de : List Nat → Ty → β → Except Err Val) (fields : List Field) :
+    List (List Nat × β) → List (List Nat × Val) → Except Err (List (List Nat × Val))
   | [], acc => .ok acc
-  | (k, v, owned) :: ps, acc =>
+  | (k, e) :: ps, acc =>
     match findField k fields with
-    | none => pathWalk fields ps acc
+    | none => visitMap de fields ps acc
     | some f =>
       match lookup k acc with
       | some _ => .error (.duplicateField k)
       | none =>
-        match pathField k f.ty v owned with
-        | .ok x => pathWalk fields ps (acc ++ [(k, x)])
+        match de k f.ty e with
+        | .ok x => visitMap de fields ps (acc ++ [(k, x)])
         | .error e => .error e
 
 /-- After the loop, one field: absent `Option` ⇒ `None`, absent defaulted `Vec` ⇒ empty, any other
@@ -427,15 +433,19 @@ def finishFields : List Field → List (List Nat × Val) → Except Err (List (L
       | .ok r => .ok ((f.name, v) :: r)
       | .error e => .error e
 
+/-- A serde-derived `Deserialize for T` (struct): the `visit_map` loop, then the missing-field pass. -/
+def visitStruct {β : Type} (de : List Nat → Ty → β → Except Err Val) (fields : List Field)
+    (entries : List (List Nat × β)) : Except Err (List (List Nat × Val)) :=
+  match visitMap de fields entries [] with
+  | .error e => .error e
+  | .ok acc => finishFields fields acc
+
 /-- `PathParams::<T>::extract(RawPathParams)` for a struct `T` with the given fields. -/
 def pathExtract (fields : List Field) (params : List (List Nat × List Nat)) :
     Except Err (List (List Nat × Val)) :=
   match decodeParams params with
   | .error e => .error e
-  | .ok ps =>
-    match pathWalk fields ps [] with
-    | .error e => .error e
-    | .ok acc => finishFields fields acc
+  | .ok ps => visitStruct pathDe fields ps
 
 /-- URI check, routing and extraction: what a handler taking `PathParams<T>` observes. -/
 def pathRequest (segs : List Seg) (fields : List Field) (path : List Nat) :
@@ -495,21 +505,6 @@ def formField (k : List Nat) (t : Ty) (vs : List (List Nat × Bool)) : Except Er
     | .ok xs => .ok (.seq xs)
     | .error e => .error e
 
-/-- The serde-derived `visit_map` loop over the grouped entries (keys are unique by then). -/
-def formWalk (fields : List Field) :
-    List (List Nat × List (List Nat × Bool)) → List (List Nat × Val) → Except Err (List (List Nat × Val))
-  | [], acc => .ok acc
-  | (k, vs) :: rest, acc =>
-    match findField k fields with
-    | none => formWalk fields rest acc
-    | some f =>
-      match lookup k acc with
-      | some _ => .error (.duplicateField k)
-      | none =>
-        match formField k f.ty vs with
-        | .ok x => formWalk fields rest (acc ++ [(k, x)])
-        | .error e => .error e
-
 /-- Decoded pairs with the allocation flag of the value. -/
 def formPairsOwned (bs : List Nat) : List (List Nat × List Nat × Bool) :=
   (formPairsRaw bs).map (fun kv => (formDecode kv.1, formDecode kv.2, formDecode kv.2 != kv.2))
@@ -517,9 +512,7 @@ def formPairsOwned (bs : List Nat) : List (List Nat × List Nat × Bool) :=
 /-- `serde_html_form::from_bytes::<T>(bs)` (= `UrlEncodedBody` after the content-type check, and
     `QueryParams` on the raw query string). -/
 def queryExtract (fields : List Field) (bs : List Nat) : Except Err (List (List Nat × Val)) :=
-  match formWalk fields (groupEntries (formPairsOwned bs) []) [] with
-  | .error e => .error e
-  | .ok acc => finishFields fields acc
+  visitStruct formField fields (groupEntries (formPairsOwned bs) [])
 
 /-- Bytes `http::uri::PathAndQuery` accepts in a query. -/
 def uriQueryByte (b : Nat) : Bool :=
@@ -539,24 +532,30 @@ def queryRequest (fields : List Field) (q : List Nat) : Except Err (List (List N
 
 /-! ## Specification side (what the property demands; used by the theorems, not by the driver) -/
 
-/-- Path parameters, by name: the field's value is the parse of THE parameter carrying its name
-    (decoded once), independent of the position of that parameter in the URL. -/
-def pathFieldSpec (dps : List (List Nat × List Nat × Bool)) (f : Field) : Except Err Val :=
-  match lookup f.name dps with
-  | some (v, owned) => pathField f.name f.ty v owned
+/-- One field, by name: its value is `de` applied to THE entry carrying the field's name,
+    wherever that entry sits; absent ⇒ the type's default or `missing field`. -/
+def fieldSpec {β : Type} (de : List Nat → Ty → β → Except Err Val) (entries : List (List Nat × β))
+    (f : Field) : Except Err Val :=
+  match lookup f.name entries with
+  | some e => de f.name f.ty e
   | none =>
     match f.ty with
     | .opt _ => .ok .none
     | .vecDefault _ => .ok (.seq [])
     | _ => .error (.missingField f.name)
 
-/-- All fields, by name; `none` as soon as one field has no acceptable value. -/
-def pathSpec (dps : List (List Nat × List Nat × Bool)) : List Field → Option (List (List Nat × Val))
+/-- All fields, by name, in declaration order; `none` as soon as one field has no acceptable value. -/
+def structSpec {β : Type} (de : List Nat → Ty → β → Except Err Val) (entries : List (List Nat × β)) :
+    List Field → Option (List (List Nat × Val))
   | [] => some []
   | f :: fs =>
-    match pathFieldSpec dps f, pathSpec dps fs with
+    match fieldSpec de entries f, structSpec de entries fs with
     | .ok v, some r => some ((f.name, v) :: r)
     | _, _ => none
+
+/-- Path parameters, by name (each value decoded once). -/
+def pathSpec (dps : List (List Nat × List Nat × Bool)) (fields : List Field) :
+    Option (List (List Nat × Val)) := structSpec pathDe dps fields
 
 /-- All occurrences of key `k`, in input order. -/
 def occurrences (k : List Nat) : List (List Nat × List Nat × Bool) → List (List Nat × Bool)
